@@ -1257,3 +1257,164 @@ def rule_D4C(ctx):
             ctx.ob(not miss, "c-cpuid-decode:%s" % feat, where(d, line), "features |= %s under %s%s" % (feat, sorted(gs, key=str), " ; missing %s" % sorted(miss, key=str) if miss else ""))
     ctx.ob(not problems, "c-cpuid-decode-shape", where(d, f["line"]), "; ".join(sorted(set(problems))) or "every tested register bit belongs to a determined leaf")
     ctx.floor("feature-bit decode sites", n, 7)
+
+
+def pm(pat, e, b):
+    """match expression/statement shape `pat` against `e`; ("pv", k) in the pattern binds consistently to one local/parameter name"""
+    if isinstance(pat, tuple) and len(pat) == 2 and pat[0] == "pv":
+        if not (isinstance(e, tuple) and len(e) >= 2 and e[0] == "var"):
+            return False
+        if pat[1] in b:
+            return b[pat[1]] == e[1]
+        if e[1] in b.values():
+            return False
+        b[pat[1]] = e[1]
+        return True
+    if isinstance(pat, (tuple, list)):
+        if not isinstance(e, (tuple, list)) or len(pat) != len(e):
+            return False
+        return all(pm(x, y, b) for x, y in zip(pat, e))
+    return pat == e
+
+
+def rule_MOC(ctx):
+    """C twin of MO (merge order of the CV stack) plus the update loop's subtree alignment:
+    merge: while cv_stack_len > popcnt(total_len): parent = &cv_stack[(len-2)*32]; parent_output(parent, key, chunk.flags) is
+    written back as a chaining value to the same slot; len -= 1.  push: merge(chunk_counter) first, then the CV goes to slot len
+    and len += 1.  update: the aligned subtree length is halved while (subtree_len - 1) & (chunk_counter * CHUNK_LEN) != 0; the left
+    CV is pushed with the counter, then the right one with counter + subtree_chunks / 2, then the counter advances by
+    subtree_chunks = subtree_len / CHUNK_LEN; the own chunk is pushed with its counter and reset to counter + 1.  finalize folds
+    the stack from the top: parent_output(stack[i] || running CV) for i = len-1 .. 0 (or starts from stack[len-2] || stack[len-1]).
+    Shapes are matched modulo casts, constant folding, single-assignment locals and the NAMES of locals and parameters."""
+    t = tu("c/blake3.c")
+    N = r_cbudget_norm
+    V = lambda k: ("pv", k)
+
+    def shapes(SELF):
+        LEN = ("member", SELF, "cv_stack_len")
+        STACK = ("member", SELF, "cv_stack")
+        return dict(LEN=LEN, STACK=STACK, KEY=("member", SELF, "key"), FLAGS=("member", ("member", SELF, "chunk"), "flags"),
+                    CTR=("member", ("member", SELF, "chunk"), "chunk_counter"), CHUNK=("un", "&", ("member", SELF, "chunk")),
+                    slot=lambda ix: ("un", "&", ("index", STACK, ("bin", "*", ix, ("int", 32)))))
+
+    def subst(e, env):
+        if isinstance(e, tuple):
+            if e[0] == "var" and e[1] in env:
+                return env[e[1]]
+            return tuple(subst(x, env) for x in e)
+        return e
+
+    def seq_of(stmts, env=None):
+        out = []
+        for s in stmts:
+            if s[0] == "expr" and s[1][0] == "call":
+                out.append(subst(N(s[1]), env or {}))
+            elif s[0] == "assign":
+                out.append(("assign", s[1], subst(N(s[2]), env or {}), subst(N(s[3]), env or {})))
+        return out
+    # ---- merge
+    m = need(t, "hasher_merge_cv_stack")
+    S = shapes(V("self"))
+    env = {}
+    loops = []
+    for s in m["body"]:
+        if s[0] == "decl" and s[3] is not None:
+            env[s[1]] = N(s[3])
+        if s[0] == "loop":
+            loops.append(s)
+    ok = len(loops) == 1
+    why = "%d loop(s)" % len(loops)
+    if ok:
+        lp = loops[0]
+        b = {}
+        okc = pm(("bin", ">", S["LEN"], ("call", "popcnt", (V("total_len"),))), subst(N(lp[2]), env), b)
+        benv = dict(env)
+        items = []
+        for s in lp[3]:
+            if s[0] == "decl" and s[3] is not None:
+                v = subst(N(s[3]), benv)
+                if v[0] == "call" and v[1] == "parent_output":
+                    items.append(("decl", ("var", s[1]), v))
+                else:
+                    benv[s[1]] = v
+            elif s[0] == "expr" and s[1][0] == "call":
+                items.append(subst(N(s[1]), benv))
+            elif s[0] == "assign":
+                items.append(("assign", s[1], subst(N(s[2]), benv), subst(N(s[3]), benv)))
+        top2 = S["slot"](("bin", "-", S["LEN"], ("int", 2)))
+        want = [("decl", V("output"), ("call", "parent_output", (top2, S["KEY"], S["FLAGS"]))),
+                ("call", "output_chaining_value", (("un", "&", V("output")), top2)), ("assign", "-=", S["LEN"], ("int", 1))]
+        okb = pm(want, items, b)
+        ok = okc and okb
+        why = "while (%s): %s" % (cshow(lp[2]), "parent_output(&cv_stack[(len-2)*32], key, chunk.flags) -> same slot; len -= 1" if okb else "body does not merge the top two entries in place")
+    ctx.ob(ok, "c-merge-top-two-in-place", where(t, m["line"]), why)
+    # ---- push
+    p = need(t, "hasher_push_cv")
+    want = [("call", "hasher_merge_cv_stack", (V("self"), V("chunk_counter"))), ("call", "memcpy", (S["slot"](S["LEN"]), V("new_cv"), ("int", 32))), ("assign", "+=", S["LEN"], ("int", 1))]
+    okp = pm(want, seq_of(p["body"]), {})
+    ctx.ob(okp, "c-push-merges-then-appends", where(t, p["line"]), "hasher_push_cv = merge(chunk_counter); memcpy(&cv_stack[len*32], new_cv, 32); len += 1: %s" % okp)
+    # ---- update loop
+    u = need(t, "blake3_hasher_update_base")
+    mains = [s for s in u["body"] if s[0] == "loop"]
+    oku = len(mains) == 1
+    detail = []
+    if oku:
+        body = mains[0][3]
+        b = {}
+        decls = [(("var", s[1]), N(s[3])) for s in body if s[0] == "decl" and s[3] is not None]
+        inner = [s for s in body if s[0] == "loop"]
+        branch = [s for s in body if s[0] == "if"]
+        tail = [("assign", s[1], N(s[2]), N(s[3])) for s in body if s[0] == "assign"]
+        CTR = S["CTR"]
+        a1 = pm([(V("subtree_len"), ("call", "round_down_to_power_of_2", (V("input_len"),))), (V("count_so_far"), ("bin", "*", CTR, ("int", 1024))),
+                 (V("subtree_chunks"), ("bin", "/", V("subtree_len"), ("int", 1024)))], decls, b)
+        a3 = len(inner) == 1 and pm(("bin", "!=", ("bin", "&", ("bin", "-", V("subtree_len"), ("int", 1)), V("count_so_far")), ("int", 0)), N(inner[0][2]), b) \
+            and pm([("assign", "/=", V("subtree_len"), ("int", 2))], seq_of(inner[0][3]), b)
+        a5 = any(pm(("assign", "+=", CTR, V("subtree_chunks")), x, b) for x in tail)
+        detail.append("subtree_len = round_down(input_len), count_so_far = counter*CHUNK_LEN, subtree_chunks = subtree_len/CHUNK_LEN: %s; halving loop: %s; counter += subtree_chunks: %s" % (a1, a3, a5))
+        a6 = a7 = False
+        if len(branch) == 1:
+            for sub in [x for x in branch[0] if isinstance(x, list)]:
+                pushes = [N(c) for c, g, l in calls_in(sub) if c[1] == "hasher_push_cv"]
+                if len(pushes) == 2:
+                    a6 = pm([("call", "hasher_push_cv", (V("self"), V("cv_pair"), CTR)),
+                             ("call", "hasher_push_cv", (V("self"), ("un", "&", ("index", V("cv_pair"), ("int", 32))), ("bin", "+", CTR, ("bin", "/", V("subtree_chunks"), ("int", 2)))))], pushes, b)
+                elif len(pushes) == 1:
+                    b2 = dict(b)
+                    asg = [x for x in seq_of(sub) if x[0] == "assign"]
+                    a7 = pm(("call", "hasher_push_cv", (V("self"), V("cv"), ("member", V("chunk_state"), "chunk_counter"))), pushes[0], b2) \
+                        and any(pm(("assign", "=", ("member", V("chunk_state"), "chunk_counter"), CTR), x, b2) for x in asg)
+        detail.append("pair pushed left (counter) then right (counter + subtree_chunks/2): %s; single chunk pushed with the hasher's counter: %s" % (a6, a7))
+        oku = all((a1, a3, a5, a6, a7))
+    ctx.ob(oku, "c-update-aligned-subtrees-and-push-order", where(t, u["line"]), "; ".join(detail) or "expected exactly one main loop")
+    # own chunk: push(chunk_cv, counter) then reset(counter + 1)
+    cs = [N(c) for c, g, l in calls_in(u["body"]) if c[1] in ("hasher_push_cv", "chunk_state_reset", "output_chaining_value")]
+    oko = False
+    for i in range(len(cs) - 2):
+        if pm([("call", "output_chaining_value", (("un", "&", V("output")), V("chunk_cv"))), ("call", "hasher_push_cv", (V("self"), V("chunk_cv"), S["CTR"])),
+               ("call", "chunk_state_reset", (S["CHUNK"], S["KEY"], ("bin", "+", S["CTR"], ("int", 1))))], cs[i:i + 3], {}):
+            oko = True
+    ctx.ob(oko, "c-own-chunk-pushed-then-reset-to-next-counter", where(t, u["line"]), "hasher_push_cv(self, chunk_cv, counter); chunk_state_reset(&self->chunk, key, counter + 1): %s" % oko)
+    # ---- finalize fold
+    f = need(t, "blake3_hasher_finalize_seek")
+    lp = [s for s in f["body"] if s[0] == "loop"]
+    br = [s for s in f["body"] if s[0] == "if" and len([x for x in s if isinstance(x, list)]) == 2 and [x for x in s if isinstance(x, list)][1]]
+    okf = len(lp) == 1 and len(br) >= 1
+    if okf:
+        b = {}
+        bq = br[-1]
+        subs = [x for x in bq if isinstance(x, list)]
+        f1 = pm(("bin", ">", ("call", "chunk_state_len", (S["CHUNK"],)), ("int", 0)), N(bq[1]), b)
+        f2 = pm([("assign", "=", V("cvs_remaining"), S["LEN"]), ("assign", "=", V("output"), ("call", "chunk_state_output", (S["CHUNK"],)))], seq_of(subs[0]), b)
+        f3 = pm([("assign", "=", V("cvs_remaining"), ("bin", "-", S["LEN"], ("int", 2))),
+                 ("assign", "=", V("output"), ("call", "parent_output", (S["slot"](V("cvs_remaining")), S["KEY"], S["FLAGS"])))], seq_of(subs[1]), b)
+        L = lp[0]
+        PB = V("parent_block")
+        want = [("assign", "-=", V("cvs_remaining"), ("int", 1)), ("call", "memcpy", (PB, S["slot"](V("cvs_remaining")), ("int", 32))),
+                ("call", "output_chaining_value", (("un", "&", V("output")), ("un", "&", ("index", PB, ("int", 32))))), ("assign", "=", V("output"), ("call", "parent_output", (PB, S["KEY"], S["FLAGS"])))]
+        f4 = pm(("bin", ">", V("cvs_remaining"), ("int", 0)), N(L[2]), b) and pm(want, seq_of(L[3]), b)
+        okf = f1 and f2 and f3 and f4
+        detail = "start from the chunk output with all of the stack %s / from stack[len-2]||stack[len-1] %s (chosen by chunk_state_len > 0 %s); fold stack[i] || cv downwards %s" % (f2, f3, f1, f4)
+    else:
+        detail = "expected one fold loop and the two-way start"
+    ctx.ob(okf, "c-finalize-folds-stack-from-the-top", where(t, f["line"]), detail)
